@@ -264,6 +264,8 @@ class SimRaw(io.RawIOBase):
         self.data[self.pos:end] = b[:n]
         self.pos = end
         fs.bytes_written += n
+        if fs.clock is not None:
+            fs.mtimes[self.path] = fs.clock.t
         return n
 
 
@@ -275,6 +277,8 @@ class SimFS:
         self.bufsize = 8192
         self.handles = []
         self.fds = {}
+        self.clock = None       # SimClock: file times come from it
+        self.mtimes = {}
         self.leaked_closed = 0
         self.reset_op()
         self.fault_counts = {}
@@ -441,8 +445,9 @@ def _sim_os_stat(path, *a, **k):
     if fs is not None and _is_sim(path):
         p = os.fspath(path)
         if p in fs.files:
+            mt = int(fs.mtimes.get(p, 0))
             return os.stat_result((0o100644, hash(p) & 0xffff, 1, 1, 0, 0,
-                                   len(fs.files[p]), 0, 0, 0))
+                                   len(fs.files[p]), mt, mt, mt))
         if p.rstrip('/') == SIM_ROOT.rstrip('/'):
             return os.stat_result((0o040755, 1, 1, 2, 0, 0, 0, 0, 0, 0))
         raise FileNotFoundError(errno.ENOENT, 'No such file or directory', p)
